@@ -224,4 +224,56 @@ theorem cast_sign (k : Nat) : (((if (k : Int) % 2 == 0 then 1 else -1 : Int)) : 
   · have : (k : Int) % 2 = 1 := by obtain ⟨m, rfl⟩ := h; omega
     simp [this, h.neg_one_pow]
 
+/-! ### the cube reference with `p = ⟨0,0,false⟩`, and folds of `LP.addTerm` (for `eval_chiChain`) -/
+
+theorem mkCube_n (l : Link) : (mkCube l ⟨0, 0, false⟩).n = crossingNum l := rfl
+theorem mkCube_base (l : Link) : (mkCube l ⟨0, 0, false⟩).base = none := rfl
+
+theorem mkCube_circ (l : Link) (s : Nat) (hs : s < 2 ^ crossingNum l) :
+    (mkCube l ⟨0, 0, false⟩).circ[s]! = circles l (edgeLabels l) s := by
+  show ((Array.range (2 ^ crossingNum l)).map (fun s => circles l (edgeLabels l) s))[s]! = _
+  rw [getElem!_pos _ _ (by simpa using hs)]
+  simp [Array.getElem_range]
+
+theorem mkCube_gensAt (l : Link) (s : Nat) (hs : s < 2 ^ crossingNum l) :
+    (mkCube l ⟨0, 0, false⟩).gensAt s = (Array.range (2 ^ circleCount l s)).map (fun m => Gen.mk s m) := by
+  unfold Cube.gensAt Cube.baseCircle
+  simp only [mkCube_base, mkCube_circ l s hs]
+  rfl
+
+theorem mkCube_qDeg (l : Link) (q0 : Int) (s m : Nat) (hs : s < 2 ^ crossingNum l) :
+    (mkCube l ⟨0, 0, false⟩).qDeg q0 ⟨s, m⟩ =
+      q0 + (-2 : Int) * popcount m (circleCount l s) + circleCount l s + popcount s (crossingNum l) := by
+  unfold Cube.qDeg
+  simp only [mkCube_circ l s hs, mkCube_n]
+  rfl
+
+theorem ev_foldl_addTerm {α : Type} (q qinv : R) (E C : α → Int) (xs : List α) (acc : LP) :
+    ev q qinv (xs.foldl (fun acc x => LP.addTerm (E x) (C x) acc) acc)
+      = xs.foldl (fun a x => a + (C x : R) * zpow q qinv (E x)) (ev q qinv acc) := by
+  induction xs generalizing acc with
+  | nil => rfl
+  | cons x xs ih => rw [List.foldl_cons, List.foldl_cons, ih, ev_addTerm]
+
+theorem foldl_add_acc (f : Nat → R) (xs : List Nat) (z : R) :
+    xs.foldl (fun a x => a + f x) z = z + xs.foldl (fun a x => a + f x) 0 := by
+  induction xs generalizing z with
+  | nil => simp
+  | cons x xs ih => rw [List.foldl_cons, List.foldl_cons, ih, ih (0 + f x)]; ring
+
+theorem ev_foldl_step (q qinv : R) (G : LP → Nat → LP) (g : Nat → R) (xs : List Nat)
+    (h : ∀ s ∈ xs, ∀ acc, ev q qinv (G acc s) = ev q qinv acc + g s) (acc : LP) :
+    ev q qinv (xs.foldl G acc) = xs.foldl (fun a s => a + g s) (ev q qinv acc) := by
+  induction xs generalizing acc with
+  | nil => rfl
+  | cons x xs ih =>
+    rw [List.foldl_cons, List.foldl_cons, ih (fun s hs => h s (List.mem_cons_of_mem _ hs)),
+      h x List.mem_cons_self]
+
+theorem cast_sign_neg (a b : Nat) :
+    (((if (-(a : Int) + (b : Int)) % 2 == 0 then 1 else -1 : Int)) : R) = (-1) ^ (a + b) := by
+  have h : (-(a : Int) + (b : Int)) % 2 = ((a + b : Nat) : Int) % 2 := by omega
+  rw [h]
+  exact cast_sign (a + b)
+
 end Yuiv.C04
